@@ -286,6 +286,8 @@ def run_unit(unit, repo=None, rlimit=30, extra_args=None, variant=None, mutate=N
     stale after a harmless edit then costs nothing, and a semantic change is reported against the clause of the contract
     that really fails instead of against the hint."""
     res, ex = _run_unit_once(unit, repo, rlimit, extra_args, variant, mutate, timeout)
+    if variant == "vacuity":
+        return res, ex   # the probes of the vacuity pass are meant to fail
     dropped = []
     for _round in range(4):
         if res.status != "failed" or not res.hint_spans:
@@ -297,6 +299,8 @@ def run_unit(unit, repo=None, rlimit=30, extra_args=None, variant=None, mutate=N
                 txt = mutate(txt)
             ls = txt.split("\n")
             for (l1, c1, l2, c2) in spans:
+                if not (1 <= l1 <= len(ls) and 1 <= l2 <= len(ls)):
+                    continue
                 if l1 != l2:
                     # multi-line expression: wrap from (l1,c1) to (l2,c2)
                     ls[l2 - 1] = ls[l2 - 1][:c2 - 1] + "))" + ls[l2 - 1][c2 - 1:]
